@@ -602,6 +602,56 @@ def subject_pr(r, nr):
     return {'name': 'pr.' + cls.__name__, 'variant': (which, tuple(sorted(extra)), how), 'call': call, 'inputs': inputs}
 
 
+def subject_pr_multi(r, nr):
+    """presentation states over (a) a multi-resolution pyramid of tiled images handed over in an order that is not sorted by
+    size, (b) one multi-frame image with several VOI LUT items that each name their own frames"""
+    import os
+    import highdicom as hd
+    from highdicom import pr
+    ids = _ids(r)
+    eq = _equip()
+    if r.random() < 0.5:
+        base, _ = sources.slide_image(6, 6, 2, 2, samples=3)
+        icc = open(os.path.join(os.path.dirname(hd.__file__), '_icc_profiles', 'sRGB_v4_ICC_preference.icc'), 'rb').read()
+        levels = [base]
+        for k, size in enumerate([4, 2][:r.randint(1, 2)]):
+            d, _ = sources.slide_image(size, size, 2, 2, samples=3)
+            d.StudyInstanceUID = base.StudyInstanceUID
+            d.SeriesInstanceUID = base.SeriesInstanceUID
+            d.FrameOfReferenceUID = base.FrameOfReferenceUID
+            d.PatientID = base.PatientID
+            levels.append(d)
+        for d in levels:
+            d.OpticalPathSequence[0].ICCProfile = icc
+        order = r.choice(['descending', 'shuffled'])
+        if order == 'shuffled':
+            r.shuffle(levels)
+
+        def call(referenced_images):
+            return pr.ColorSoftcopyPresentationState(referenced_images=referenced_images, content_label='PYRAMID', **ids, **eq)
+        return {'name': 'pr.ColorSoftcopyPresentationState', 'variant': ('pyramid', len(levels), order), 'call': call,
+                'inputs': {'referenced_images': levels}}
+    n = r.randint(4, 6)
+    img = sources.enhanced_multiframe(n, 4, 4)
+    frames = list(range(1, n + 1))
+    r.shuffle(frames)
+    cut = r.randint(2, n - 1)
+    groups = [frames[:cut], frames[cut:]]
+    if len(groups[1]) > 1 and r.random() < 0.5:
+        groups = [groups[0], groups[1][:1], groups[1][1:]]
+    voi = []
+    for g in groups:
+        ref = hd.ReferencedImageSequence(referenced_images=[img], referenced_frame_number=g if len(g) > 1 or r.random() < 0.5 else g[0])
+        voi.append(pr.SoftcopyVOILUTTransformation(window_center=num(r, 40.0), window_width=num(r, 400.0), referenced_images=ref))
+
+    def call(referenced_images, voi_lut_transformations):
+        return pr.GrayscaleSoftcopyPresentationState(referenced_images=referenced_images,
+                                                     voi_lut_transformations=voi_lut_transformations, content_label='FRAMES',
+                                                     **ids, **eq)
+    return {'name': 'pr.GrayscaleSoftcopyPresentationState', 'variant': ('frame-specific voi', n, tuple(len(g) for g in groups)),
+            'call': call, 'inputs': {'referenced_images': [img], 'voi_lut_transformations': voi}}
+
+
 def subject_pr_blending(r, nr):
     import highdicom as hd
     from highdicom import pr
@@ -817,4 +867,4 @@ def vary_containers(inputs, r):
 
 
 SUBJECTS = [subject_content, subject_seg, subject_seg, subject_seg, subject_seg_volume, subject_pm, subject_pm, subject_sc, subject_sr,
-            subject_sr, subject_ko, subject_ann, subject_pr, subject_pr, subject_pr_blending, subject_legacy]
+            subject_sr, subject_ko, subject_ann, subject_pr, subject_pr, subject_pr_multi, subject_pr_blending, subject_legacy]
